@@ -86,7 +86,7 @@ def generic_sink_of(stmts: list, ns: list | None = None, identifier: Any = None)
 
 
 def rdflib_store_of(stmts: list, ns: list | None = None, dataset: bool | None = None,
-                    bind_namespaces: str = "none"):
+                    bind_namespaces: str = "none", empty_graphs: list | None = None):
     import rdflib
 
     if dataset is None:
@@ -99,6 +99,9 @@ def rdflib_store_of(stmts: list, ns: list | None = None, dataset: bool | None = 
         store = rdflib.Graph(bind_namespaces=bind_namespaces)
     for prefix, iri in ns or ():
         store.bind(prefix, rdflib.URIRef(iri), override=True, replace=True)
+    if dataset:
+        for g in empty_graphs or ():      # named graphs that exist but hold no triple
+            store.graph(T.to_rdflib(g))
     for st in stmts:
         if len(st) == 4:
             s, p, o, g = (T.to_rdflib(t) for t in st)
@@ -138,11 +141,11 @@ def serialize(cfg: dict, stmts: list, ns: list | None = None) -> bytes:
     else:
         conv = T.stmt_to_rdflib
         if entry == "graph_serialize":
-            store = rdflib_store_of(stmts, ns, dataset=cfg["physical"] != 1)
+            store = rdflib_store_of(stmts, ns, dataset=cfg["physical"] != 1, empty_graphs=cfg.get("empty_graphs"))
             options = make_options(cfg)
             store.serialize(out, format="jelly", options=options, stream=make_stream(cfg, options))
         elif entry == "graph_serialize_options":
-            store = rdflib_store_of(stmts, ns, dataset=cfg["physical"] != 1)
+            store = rdflib_store_of(stmts, ns, dataset=cfg["physical"] != 1, empty_graphs=cfg.get("empty_graphs"))
             store.serialize(out, format="jelly", options=make_options(cfg))
         elif entry == "flat_to_file":
             assert delimited
@@ -152,14 +155,14 @@ def serialize(cfg: dict, stmts: list, ns: list | None = None) -> bytes:
             write_frames(frames, out, delimited)
         elif entry == "grouped_to_file":
             assert delimited
-            store = rdflib_store_of(stmts, ns, dataset=cfg["physical"] != 1)
+            store = rdflib_store_of(stmts, ns, dataset=cfg["physical"] != 1, empty_graphs=cfg.get("empty_graphs"))
             rser.grouped_stream_to_file((s for s in [store]), out, options=make_options(cfg))
         elif entry == "stream_frames_gen":
             stream = make_stream(cfg)
             write_frames(rser.stream_frames(stream, (conv(s) for s in stmts)), out, delimited)
         elif entry == "stream_frames_store":
             stream = make_stream(cfg)
-            store = rdflib_store_of(stmts, ns, dataset=cfg["physical"] != 1)
+            store = rdflib_store_of(stmts, ns, dataset=cfg["physical"] != 1, empty_graphs=cfg.get("empty_graphs"))
             write_frames(rser.stream_frames(stream, store), out, delimited)
         else:
             raise ValueError(entry)
